@@ -5,7 +5,9 @@ package main
 // neighbourhood of certification references), random products and masking pairs.
 
 import (
+	"encoding/base64"
 	"fmt"
+	"strings"
 
 	psa "github.com/veraison/psatoken"
 )
@@ -47,8 +49,28 @@ var textPool = []string{"", "a", "PSA", "1.2.3", "BL", "héllo", "日本", "a\"b
 	"[", "]", "{", "}", ",", ":", "null", "true", "\"", "[]", "{}"}
 var badUTF8 = []string{"\xff", "a\xc3", "\xed\xa0\x80", "ok\xfe"}
 
+// hexLookingDigests: 48-byte values whose (unpadded, 64-character) base64 text consists of hexadecimal digits only —
+// a reader that "also accepts hex" must not take them for 32 bytes of hex
+var hexLookingDigests = func() [][]byte {
+	var out [][]byte
+	for _, s := range []string{"deadBEEF", "00000000", "ABCDEF01", "cafe0123"} {
+		b, err := base64.StdEncoding.DecodeString(strings.Repeat(s, 8))
+		if err != nil || len(b) != 48 {
+			panic("hexLookingDigests")
+		}
+		out = append(out, b)
+	}
+	return out
+}()
+
 func validComp(r *Rng) CompDesc {
 	c := CompDesc{MV: bp(fill(Pick(r, []int{32, 48, 64}), byte(r.Intn(200)))), SID: bp(fill(Pick(r, []int{32, 48, 64}), byte(r.Intn(200))))}
+	if r.Chance(6) {
+		c.MV = bp(append([]byte{}, Pick(r, hexLookingDigests)...))
+	}
+	if r.Chance(6) {
+		c.SID = bp(append([]byte{}, Pick(r, hexLookingDigests)...))
+	}
 	if r.Chance(40) {
 		c.MT = bp([]byte(Pick(r, textPool)))
 	}
@@ -143,6 +165,15 @@ func certNeighbourhood(s string) []string {
 			add(s[:i] + a + s[i:])
 		}
 	}
+	// the same number of *bytes*, one of the digits not an ASCII digit: k ASCII digits replaced by one decimal digit of
+	// another script that takes k bytes in UTF-8
+	for _, wide := range []string{"٢", "१", "𝟏", "０"} {
+		for i := 0; i+len(wide) <= len(s); i++ {
+			if !strings.Contains(s[i:i+len(wide)], "-") {
+				add(s[:i] + wide + s[i+len(wide):])
+			}
+		}
+	}
 	return out
 }
 
@@ -164,8 +195,14 @@ func deviations(p int, thorough bool) []deviation {
 	if p == 1 {
 		add("profile", "empty", func(d *ClaimsDesc) { d.Prof = sp("") })
 		add("profile", "canon+space", func(d *ClaimsDesc) { d.Prof = sp(d.Canon + " ") })
+		add("profile", "case-lower", func(d *ClaimsDesc) { d.Prof = sp(strings.ToLower(d.Canon)) })
+		add("profile", "case-upper", func(d *ClaimsDesc) { d.Prof = sp(strings.ToUpper(d.Canon)) })
+		add("profile", "case-path", func(d *ClaimsDesc) {
+			d.Prof = sp(strings.Replace(strings.Replace(d.Canon, "psa", "PSA", 1), "IOT", "iot", 1))
+		})
 		add("profile", "prefix", func(d *ClaimsDesc) { d.Prof = sp(d.Canon[:len(d.Canon)-1]) })
 	} else {
+		add("profile", "case-path", func(d *ClaimsDesc) { d.Prof = sp(strings.Replace(d.Canon, "/psa/", "/PSA/", 1)) })
 		add("profile", "invalid-zero", func(d *ClaimsDesc) { d.Prof = nil; d.ProfInvalid = true })
 	}
 	add("canonical", "extension", func(d *ClaimsDesc) {
@@ -241,7 +278,7 @@ func deviations(p int, thorough bool) []deviation {
 		// quick: every 7th neighbour (the thorough tier runs all of them)
 		var sub []string
 		for i, s := range nb {
-			if i%7 == 0 {
+			if i%7 == 0 || strings.ContainsAny(s, "٢१𝟏０") {
 				sub = append(sub, s)
 			}
 		}
